@@ -395,3 +395,53 @@ Theorem gen_operators_eq (a b : gen) :
   base_mul a b = Some (Ensemble [a; b], tt) /\
   base_xor a b = Some (Mesh [a; b], tt).
 Proof. repeat split; reflexivity. Qed.
+
+(* ---------------------------------------------------------------- constructors with optional arguments; PredefinedGenerator *)
+Theorem gen_filter_init_eq (g : gen) (m : nat) (size : option nat) (upd : bool) :
+  filter_init (csize g) size upd = Some (csize (Filter g m size upd), upd).
+Proof. destruct size; reflexivity. Qed.
+
+Theorem gen_resample_init_eq (g : gen) (r : nat) (size : option nat) (repl : bool) :
+  resample_init (csize g) size repl = Some (csize (Resample g r size repl), repl).
+Proof. destruct size; reflexivity. Qed.
+
+Theorem gen_init_defaults :
+  filter_init_default_size = @None nat /\ filter_init_default_update_size = true /\
+  resample_init_default_size = @None nat /\ resample_init_default_replacement = false.
+Proof. repeat split. Qed.
+
+Lemma map_id' {A} (f : A -> A) (l : list A) : (forall x, f x = x) -> map f l = l.
+Proof. intros H. induction l as [|a l IH]; cbn [map]; [reflexivity|]. rewrite H, IH. reflexivity. Qed.
+
+Theorem gen_predefined_eq (isT : list Z -> bool) (cs : list (list Z)) :
+  predefined_init isT cs =
+  (if built (Predefined cs) then Some (csize (Predefined cs), match single_or FL cs with (FT, [t]) => PT t | (_, l) => PL l end) else None)
+  /\ forall v, predefined_get_examples v = Some (v, tt).
+Proof.
+  split; [|reflexivity].
+  unfold predefined_init. destruct cs as [|c rest]; [reflexivity|]. cbn [index0 built csize hd]. cbv zeta.
+  rewrite (existsb_negb (fun x => Nat.eqb (length c) (length x))).
+  assert (E : forallb (fun x => Nat.eqb (length c) (length x)) (c :: rest) = forallb (fun x => Nat.eqb (length x) (length c)) (c :: rest)).
+  { generalize (c :: rest). intros l. induction l as [|a l IH]; cbn [forallb]; [reflexivity|]. rewrite IH, (Nat.eqb_sym (length c) (length a)). reflexivity. }
+  rewrite E. destruct (forallb (fun x => Nat.eqb (length x) (length c)) (c :: rest)); [|reflexivity].
+  cbn [negb].
+  rewrite (map_id' (fun x => if isT x then x else tensor_of x)) by (intros x; destruct (isT x); reflexivity).
+  rewrite (map_id' (fun x => requires_grad (flatten_nd x))) by reflexivity.
+  destruct rest as [|d rest']; reflexivity.
+Qed.
+
+(* the stored value is what the model's [sample] returns for a PredefinedGenerator at every call index: the generated
+   constructor and get_examples together give "predefined returns the same points forever" *)
+Theorem gen_predefined_sample (isT : list Z -> bool) (cs : list (list Z)) (sz : nat) (v : pyv)
+        draw mask rperm rint tvec tmulti :
+  predefined_init isT cs = Some (sz, v) ->
+  built (Predefined cs) = true /\ sz = csize (Predefined cs) /\
+  forall k, predefined_get_examples v = Some (v, tt) /\
+            sample draw mask rperm rint tvec tmulti (Predefined cs) k = Some (out_of_pyv v).
+Proof.
+  intros H. destruct (gen_predefined_eq isT cs) as [E G]. rewrite E in H.
+  destruct (built (Predefined cs)) eqn:B; [|discriminate].
+  injection H as Hs Hv. subst sz v. split; [reflexivity|]. split; [reflexivity|].
+  intros k. split; [apply G|].
+  destruct cs as [|c [|d rest]]; [discriminate B| reflexivity | reflexivity].
+Qed.
